@@ -33,6 +33,23 @@ def run_cli(cmd, text, timeout_s):
         os.unlink(path)
 
 
+def _has_quantifier(e, _memo=None):
+    _memo = {} if _memo is None else _memo
+    k = e.get_id()
+    if k in _memo:
+        return _memo[k]
+    r = z3.is_quantifier(e) or any(_has_quantifier(ch, _memo) for ch in e.children())
+    _memo[k] = r
+    return r
+
+
+def _qf_conjuncts(h):
+    """the quantifier-free conjuncts of a hypothesis (conjunctions are opened; any conjunct containing a quantifier is dropped)"""
+    if z3.is_and(h):
+        return [q for ch in h.children() for q in _qf_conjuncts(ch)]
+    return [] if _has_quantifier(h) else [h]
+
+
 def discharge(vc, timeout_ms=None, fallbacks=True, seed=None):
     """returns dict(name, kind, verdict, backend, time_s, model, reason)"""
     timeout_ms = timeout_ms or QUICK_TIMEOUT_MS
@@ -49,7 +66,7 @@ def discharge(vc, timeout_ms=None, fallbacks=True, seed=None):
     if vc.kind == 'cover':
         # satisfiability of the quantifier-free part of the hypotheses (quantified parts make z3 answer unknown);
         # the stronger vacuity guard is the canary suite (mutants that must fail)
-        s.add(*[h for h in vc.hyps if not z3.is_quantifier(h)])
+        s.add(*[q for h in vc.hyps for q in _qf_conjuncts(h)])
         r = s.check()
         res['time_s'] = time.time() - t0
         # a cover wants the hypotheses to be satisfiable
